@@ -492,8 +492,14 @@ func (r *run) runIsolated() {
 					p.stop()
 				}
 			}()
-			for j := range jobs {
-				for j.from < j.to {
+			// runRange evaluates the cases of j in worker processes. When a
+			// worker dies or hangs at a case, the outcomes of the cases it had
+			// already evaluated in the chunk die with it: they are evaluated
+			// again (by a fresh worker) before going on after the crashing case.
+			failed := false
+			var runRange func(j job)
+			runRange = func(j job) {
+				for j.from < j.to && !failed {
 					if p == nil {
 						atomic.StoreUint64(&hb.words()[0], 0)
 						p, err = startWorker(self, r.tier, hbPath)
@@ -501,13 +507,14 @@ func (r *run) runIsolated() {
 							r.mu.Lock()
 							r.harnessErrs = append(r.harnessErrs, "start worker: "+err.Error())
 							r.mu.Unlock()
+							failed = true
 							return
 						}
 					}
 					cr, kind := p.do(j, hb, hang)
 					if kind == "" {
 						r.merge(cr)
-						break
+						return
 					}
 					// worker died or hung inside the chunk at heartbeat index
 					wd := hb.words()
@@ -517,25 +524,32 @@ func (r *run) runIsolated() {
 						r.harnessErrs = append(r.harnessErrs, "worker "+kind+" before its first case (start-up failure):\n"+tail(p.stderrTail(), 3000))
 						r.mu.Unlock()
 						p.stop()
+						failed = true
 						return
 					}
 					idx := atomic.LoadUint64(&wd[2])
-					evals := atomic.LoadUint64(&wd[3])
-					nontr := atomic.LoadUint64(&wd[4])
 					if uint64(j.si) != atomic.LoadUint64(&wd[1]) || idx < j.from || idx >= j.to {
 						idx = j.from // died before the first case of this chunk
-						evals, nontr = 0, 0
 					}
 					errOut := p.stderrTail()
 					p.stop()
 					p = nil
-					partial := chunkResult{Space: j.si, Evals: evals + 1, Nontr: nontr + 1, Ops: evals + 1, Classes: map[string]uint64{kind: 1, "ok(before-crash-in-chunk)": evals}}
+					if idx > j.from {
+						runRange(job{si: j.si, from: j.from, to: idx})
+					}
+					partial := chunkResult{Space: j.si, Evals: 1, Nontr: 1, Ops: 1, Classes: map[string]uint64{kind: 1}}
 					r.merge(partial)
 					cmu.Lock()
 					cands = append(cands, candidate{j.si, idx, kind, errOut})
 					cmu.Unlock()
 					j.from = idx + 1
 				}
+			}
+			for j := range jobs {
+				if failed {
+					return
+				}
+				runRange(j)
 			}
 		}(w)
 	}
@@ -552,6 +566,9 @@ func (r *run) runIsolated() {
 	var cwg sync.WaitGroup
 	for _, c := range cands {
 		key0 := c.kind + "|" + CrashSignature(c.stderr)
+		if c.kind == "hang" {
+			key0 = "hang|space=" + r.spaces[c.si].Name // a hang has no stack: name at least where it happens
+		}
 		cmu.Lock()
 		n := confirmed[key0]
 		confirmed[key0]++
@@ -589,6 +606,9 @@ func (r *run) runIsolated() {
 				return
 			}
 			key := c.kind + "|" + CrashSignature(lastErr)
+			if c.kind == "hang" {
+				key = "hang|space=" + r.spaces[c.si].Name
+			}
 			f := Failure{Space: sp.Name, Index: c.idx, Key: key, Detail: tail(lastErr, 1500)}
 			if sp.Describe != nil {
 				f.Witness = sp.Describe(c.idx)
